@@ -479,6 +479,13 @@ Warning: rounding to n-th business day not supported for input value");
 		break;
 
 	case DT_DURQU:
+		if (d.typ == DT_YMD && !nextp && dur.dv &&
+		    (d.ymd.m + 2U) / 3U ==
+		    (unsigned int)(dur.dv < 0 ? -dur.dv : dur.dv)) {
+			/* we're IN the quarter already and no
+			 * next/prev date is requested */
+			break;
+		}
 		dur.dv *= 3;
 		dur.dv -= (dur.dv > 0) * 2;
 		dur.dv += (dur.dv < 0) * 2;
